@@ -118,7 +118,9 @@ Inductive op :=
 | Tag (d r : N)
 | Untag (r : N)
 | Delete (d : N)
-| SaveIndex.
+| SaveIndex
+| Forget (live : list N).   (* the in-memory half of GC: digest references of content outside
+                               [live] are dropped (tagged content always stays), then saveIndex *)
 
 Inductive res := ROk | RExists | RNotFound | RMismatch.
 
@@ -175,6 +177,8 @@ Definition op_mem (s : st) (o : op) : list (N * N) * list N :=
   | Delete d =>
       (filter (fun e => negb (snd e =? d)) (stags s), filter (fun x => negb (x =? d)) (sdigs s))
   | SaveIndex => (stags s, sdigs s)
+  | Forget live =>
+      (stags s, filter (fun x => memN x live || existsb (fun e => snd e =? x) (stags s)) (sdigs s))
   end.
 
 Definition op_steps (s : st) (o : op) : list mstep :=
@@ -202,6 +206,7 @@ Definition op_steps (s : st) (o : op) : list mstep :=
       let un := if exists_file (sfs s) (FBlob d) then [Unlink (FBlob d)] else [] in
       if unlink_first then un ++ ix else ix ++ un
   | SaveIndex => index_steps c tags' digs'
+  | Forget _ => index_steps c tags' digs'
   end.
 
 Definition op_res (s : st) (o : op) : res :=
@@ -213,6 +218,7 @@ Definition op_res (s : st) (o : op) : res :=
   | Untag r => match tag_get r (stags s) with Some _ => ROk | None => RNotFound end
   | Delete d => if exists_file (sfs s) (FBlob d) then ROk else RNotFound
   | SaveIndex => ROk
+  | Forget _ => ROk
   end.
 
 Definition run_op (s : st) (o : op) : st :=
@@ -220,6 +226,19 @@ Definition run_op (s : st) (o : op) : st :=
   mkSt (apply (op_steps s o) (sfs s)) tags' digs' (S (sctr s)).
 
 Definition run (h : list op) (s : st) : st := fold_left run_op h s.
+
+(* One API call that performs several primitive operations in a row under the store's
+   lock: Delete with AutoGC = plain deletes of the target, of its untagged referrers and of
+   the content left dangling, in queue order; GC = Forget, then the plain delete of every
+   blob file outside the live set, in directory order.  Which nodes a cascade or a sweep
+   visits is C09's subject; here they are an arbitrary list. *)
+Fixpoint steps_seq (s : st) (os : list op) : list mstep :=
+  match os with
+  | [] => []
+  | o :: r => op_steps s o ++ steps_seq (run_op s o) r
+  end.
+Definition crash_seq (s : st) (os : list op) (k : nat) : FS :=
+  apply (firstn k (steps_seq s os)) (sfs s).
 
 (* the operation [o] interrupted before its k-th micro-step *)
 Definition crash_fs (s : st) (o : op) (k : nat) : FS :=
